@@ -239,6 +239,42 @@ func c13Whitelist(r *core.Run, v *ssa.Function, W map[string]bool) {
 				}
 				r.Check(ok && n > 0, "C13.WL", vn+"#phrase-scan-precedes-nil", ret.Pos(), "return nil only after every forbidden-phrase test failed", "return nil reachable although a forbidden phrase matched ("+why+")")
 			}
+			// the text is folded to the case the phrases are written in: a lower-case phrase list is searched in the
+			// lower-cased text (an upper-cased or unfolded text never contains them)
+			var phrases []string
+			if u, isLoad := t.Call.Args[1].(*ssa.UnOp); isLoad {
+				if ia, isIA := u.X.(*ssa.IndexAddr); isIA {
+					phrases, _ = stringElems(ia.X)
+				}
+			}
+			if k, isC := core.ConstString(t.Call.Args[1]); isC {
+				phrases = []string{k}
+			}
+			if len(phrases) == 0 {
+				continue
+			}
+			allLower, allUpper := true, true
+			for _, ph := range phrases {
+				if ph != strings.ToLower(ph) {
+					allLower = false
+				}
+				if ph != strings.ToUpper(ph) {
+					allUpper = false
+				}
+			}
+			fold := ""
+			for _, o := range core.Origins(t.Call.Args[0]) {
+				if c, isCall := o.(*ssa.Call); isCall {
+					switch core.CalleeName(&c.Call) {
+					case "strings.ToLower":
+						fold = "lower"
+					case "strings.ToUpper":
+						fold = "upper"
+					}
+				}
+			}
+			okFold := (allLower && fold == "lower") || (allUpper && !allLower && fold == "upper")
+			r.Check(okFold, "C13.WL", vn+"#phrase-scan-case", t.Pos(), "the text is folded to the case of the phrase list before it is searched", "the forbidden phrases are written in "+map[bool]string{true: "lower", false: "mixed/upper"}[allLower]+" case but the text is searched after folding it to '"+fold+"' case: the phrases can never match, so an answer whose evidence says 'ignore previous instructions' passes validation")
 		}
 	}
 }
@@ -1219,6 +1255,12 @@ func c13Nonce(r *core.Run, b *ssa.Function) {
 			}
 			if callee := core.StaticCallee(&call.Call); callee != nil && usesCryptoRand(callee) {
 				okOrigin = true
+			}
+			// ... of a length that makes it unguessable: a constant request of at least 8 random bytes (an empty
+			// nonce turns the delimiters into constants a commit message can reproduce)
+			if okOrigin && len(call.Call.Args) >= 1 {
+				k, isK := core.ConstInt(call.Call.Args[len(call.Call.Args)-1])
+				r.Check(isK && k >= 8, "C13.ENV", bn+"#nonce-length", call.Pos(), fmt.Sprintf("the nonce request is for %d random bytes", k), fmt.Sprintf("the delimiter nonce is requested with length %s: with fewer than 8 random bytes (0 = empty) the envelope markers are predictable and untrusted text can forge them", core.Canon(call.Call.Args[len(call.Call.Args)-1])))
 			}
 		}
 		r.Check(okOrigin, "C13.ENV", bn+"#nonce-origin", c.Pos(), "delimiter nonce comes from the nonce generator", "delimiter value is "+core.Canon(first)+", not a nonce from the generator")
